@@ -1,15 +1,15 @@
-// verif-case: property=C01 flavour=da feature=c01 harness=c01::q::rank9_n1_len37 safety_only=0
+// verif-case: property=C01 flavour=da feature=c01 harness=c01::q::rank9_n1_len64 safety_only=0
 // Solver counter-example(s) produced by Kani's concrete playback; replay with
-//   ./check C01 --replay /verif/replay/cases/c01__q__rank9_n1_len37.rs
+//   ./check C01 --replay /verif/replay/cases/c01__q__rank9_n1_len64.rs
 
 // failed check (assertion): assertion failed: r.rank_zero(p) == p - exp
 #[test]
-fn kani_concrete_playback_rank9_n1_len37_14008227041803114199() {
+fn kani_concrete_playback_rank9_n1_len64_4398706049048004499() {
     let concrete_vals: Vec<Vec<u8>> = vec![
         // 0ul
         vec![0, 0, 0, 0, 0, 0, 0, 0],
         // 9223372036854775808ul
         vec![0, 0, 0, 0, 0, 0, 0, 128],
     ];
-    kani::concrete_playback_run(concrete_vals, crate::c01::q::rank9_n1_len37);
+    kani::concrete_playback_run(concrete_vals, crate::c01::q::rank9_n1_len64);
 }
